@@ -42,9 +42,11 @@ func (b *Buffer) Close() (err error) {
 		// cancel the context, so that the consumers will close themselves (therefore self-removing)
 		// also ensures that Put and NewConsumer calls on a closing buffer will fail
 		b.cancel()
+		verifPoint("buf.close.cancelled", b, 0)
 
 		// block until all consumers are closed (they remove themselves from the internal mapping)
 		for len(b.consumers) != 0 {
+			verifPoint("buf.close.wait", b, len(b.consumers))
 			b.cond.Wait()
 		}
 	})
@@ -78,6 +80,7 @@ func (b *Buffer) Put(ctx context.Context, values ...interface{}) error {
 	}
 
 	b.buffer = append(b.buffer, values...)
+	verifPoint("buf.put", b, len(values))
 	b.cond.Broadcast()
 
 	return nil
@@ -110,6 +113,7 @@ func (b *Buffer) NewConsumer() (Consumer, error) {
 	}()
 
 	b.consumers[c] = b.offset // the consumer's initial offset becomes the start of the buffer
+	verifPoint("buf.newconsumer", c, b.offset)
 	b.cond.Broadcast()
 
 	return c, nil
@@ -246,6 +250,7 @@ func (b *Buffer) delete(c *consumer) {
 
 	// remove the consumer if it is part of the buffer
 	delete(b.consumers, c)
+	verifPoint("buf.delete", c, 0)
 	// we (may have) modified the buffer, broadcast it
 	b.cond.Broadcast()
 }
@@ -265,6 +270,7 @@ func (b *Buffer) commit(c *consumer, offset int) error {
 
 	// save the new offset
 	b.consumers[c] = offset
+	verifPoint("buf.commit", c, offset)
 	// we (may have) modified the buffer, broadcast it
 	b.cond.Broadcast()
 
@@ -292,15 +298,18 @@ func (b *Buffer) get(c *consumer, offset int) (interface{}, bool, error) {
 
 	// guard against past offsets
 	if relative < 0 {
+		verifPoint("buf.get.past", c, relative)
 		return nil, false, fmt.Errorf("bigbuff.Buffer.get offset %d is %d past", offset, -1*relative)
 	}
 
 	// guard against pending offsets (as in, further down b.buffer than is available)
 	if relative >= len(b.buffer) {
+		verifPoint("buf.get.pending", c, relative)
 		return nil, false, nil
 	}
 
 	// we had the value available, return it
+	verifPoint("buf.get.ok", c, relative)
 	return b.buffer[relative], true, nil
 }
 
@@ -337,9 +346,12 @@ func (b *Buffer) getAsync(ctx context.Context, c *consumer, offset int, cancels 
 	}, 1)
 
 	// spawn a sender for it
+	verifPoint("buf.async.spawn", c, offset)
 	go func() {
+		verifPoint("buf.async.start", c, offset)
 		// we need to wait for the value in the buffer, so we need to write lock the buffer
 		b.mutex.Lock()
+		verifPoint("buf.async.locked", c, offset)
 		defer b.mutex.Unlock()
 
 		// to break it down, while the input context is open AND the the buffer context is open AND all cancels
@@ -378,6 +390,7 @@ func (b *Buffer) getAsync(ctx context.Context, c *consumer, offset int, cancels 
 			// async error case due to context error
 			result.Error = err
 		}
+		verifPoint("buf.async.send", c, offset)
 		out <- result
 	}()
 
@@ -493,12 +506,14 @@ func (b *Buffer) cleanup() {
 			if timer != nil {
 				// indicate that we want a re-broadcast (since we missed out this time)
 				broadcast = true
+				verifPoint("buf.cleanup.flagged", b, 0)
 				return
 			}
 
 			// do the actual cleanup logic, note that though it returns a bool indicating if it actually did anything,
 			// the current implementation applies the cooldown regardless of if it did anything
 			b.cleanupLogic()
+			verifPoint("buf.cleanup.evaluated", b, 0)
 
 			// no wait?
 			if d <= 0 {
@@ -517,6 +532,7 @@ func (b *Buffer) cleanup() {
 				defer func() {
 					// lock on the mutex, so that the timer removal and broadcast checking / performing is synced
 					mutex.Lock()
+					verifPoint("buf.timer.locked", b, 0)
 					defer mutex.Unlock()
 
 					// re-enable the cleanup cycle
@@ -533,6 +549,7 @@ func (b *Buffer) cleanup() {
 
 				// wait for the timer to expire
 				<-timer.C
+				verifPoint("buf.timer.fired", b, 0)
 			}()
 		}
 	)
@@ -565,6 +582,7 @@ func (b *Buffer) cleanupLogic() bool {
 		b.consumerOffsets(),
 	)
 
+	verifPoint("buf.clean", b, shift)
 	// the upper bound for shift is the length of the buffer
 	if l := len(b.buffer); shift > l {
 		shift = l
